@@ -275,7 +275,7 @@ impl FormatSpec {
     pub fn parse(text: &str) -> Result<Self, FormatSpecError> {
         // get_integer in CPython
         let (conversion, text) = FormatConversion::parse(text);
-        let (mut fill, mut align, text) = parse_fill_and_align(text);
+        let (mut fill, align, text) = parse_fill_and_align(text);
         let (sign, text) = FormatSign::parse(text);
         let (alternate_form, text) = parse_alternate_form(text);
         let (zero, text) = parse_zero(text);
@@ -288,8 +288,10 @@ impl FormatSpec {
         }
 
         if zero && fill.is_none() {
+            // The alignment stays unset: the '0' flag means '=' for numbers but the ordinary left
+            // alignment for strings. (An explicit fill always comes with an alignment, so a '0'
+            // fill without one can only be the flag.)
             fill.replace('0');
-            align = align.or(Some(FormatAlign::AfterSign));
         }
 
         Ok(FormatSpec {
@@ -423,8 +425,8 @@ impl FormatSpec {
                 let magnitude_len = magnitude_str.len();
                 // The width only takes part in grouping for sign-aware zero padding (the `0`
                 // flag, i.e. fill '0' with '=' alignment); any other fill is added afterwards.
-                let zero_padded =
-                    self.fill == Some('0') && self.align == Some(FormatAlign::AfterSign);
+                let zero_padded = self.fill == Some('0')
+                    && matches!(self.align, None | Some(FormatAlign::AfterSign));
                 let width = if zero_padded {
                     self.width.unwrap_or(magnitude_len) as i32 - prefix.len() as i32
                 } else {
@@ -629,6 +631,17 @@ impl FormatSpec {
         T: CharLen + Deref<Target = str>,
     {
         self.validate_format(FormatType::String)?;
+        if matches!(self.format_type, Some(FormatType::String) | None) {
+            if self.sign.is_some() {
+                return Err(FormatSpecError::NotAllowed("Sign"));
+            }
+            if self.alternate_form {
+                return Err(FormatSpecError::NotAllowed("Alternate form (#)"));
+            }
+            if self.align == Some(FormatAlign::AfterSign) {
+                return Err(FormatSpecError::NotAllowed("'=' alignment"));
+            }
+        }
         match self.format_type {
             Some(FormatType::String) | None => match self.precision {
                 // precision truncates the value to that many characters, before padding
@@ -658,7 +671,11 @@ impl FormatSpec {
     where
         T: CharLen + Deref<Target = str>,
     {
-        let align = self.align.unwrap_or(default_align);
+        let align = self.align.unwrap_or(match default_align {
+            // the '0' flag on a number
+            FormatAlign::Right if self.fill == Some('0') => FormatAlign::AfterSign,
+            _ => default_align,
+        });
 
         let num_chars = magnitude_str.char_len();
         let fill_char = self.fill.unwrap_or(' ');
